@@ -279,10 +279,10 @@ def run(ctx):
         known = None
         skipk = None
         for c, pol in p.cond:
-            if kind(c) == 'cmp' and c[1] == 'in' and contains(
+            if kind(c) == 'cmp' and c[1] in ('in', 'not in') and contains(
                     c[3], lambda x: kind(x) == 'attr' and
                     x[2] == 'knownInterfaces'):
-                known = pol
+                known = (c[1] == 'in') == pol
             # knownInterfaces.get(name) is not None / truthy
             g = c[2] if kind(c) == 'cmp' and c[3] == NONE and \
                 c[1] in ('is', 'is not') else c
